@@ -253,7 +253,7 @@ def addChoice (r : SwitchR) (var : Str) (type : Str) (args : List (Option Str)) 
     (dest : Dest) (isDefault : Bool) : M SwitchR := do
   let s ← get
   let r := if var.isEmpty then r else { r with operand := var }
-  -- RouterCase stores no arguments for the no-argument tests
+  -- RouterCase stores no arguments for the no-argument tests (and `_get_case_or_none` looks them up so)
   let stored := if s.noArgs.contains type then [] else args
   match r.cases.find? (fun k => k.type = type ∧ k.args = stored) with
   | some k =>
